@@ -2379,7 +2379,7 @@ def _build_fn(sf: SourceFile, item: Item, impl, ex: Extract, props, rep, unit, a
     # 2b. R7 index rewriting: `recv[expr]` in read position -> `recv.method(expr)` (Index impls cannot carry a precondition)
     for (recv, method) in ex.indexcalls:
         pat = pat_tokens(recv)
-        n_rw = 0
+        n_rw = 0; n_mut = 0
         while True:
             hits = _find_seq_any(body_toks, pat)
             done = True
@@ -2394,13 +2394,20 @@ def _build_fn(sf: SourceFile, item: Item, impl, ex: Extract, props, rep, unit, a
                     inner = text_of(body_toks[nx + 1:cl])
                     if ".." in inner:
                         continue
+                    # `&mut recv[i]` -> `recv.<method>_mut(i)` (IndexMut cannot carry a precondition either)
+                    p1 = _prev_sig(body_toks, a0); p2 = _prev_sig(body_toks, p1) if p1 >= 0 else -1
+                    if p1 >= 0 and p2 >= 0 and body_toks[p1].text == "mut" and body_toks[p2].text == "&":
+                        body_toks[nx:cl + 1] = [T("raw", f".{method}_mut({inner})")]
+                        body_toks[p2:a0] = []
+                        n_mut += 1; n_rw += 1; done = False
+                        break
                     body_toks[nx:cl + 1] = [T("raw", f".{method}({inner})")]
                     n_rw += 1; done = False
                     break
             if done:
                 break
         if n_rw:
-            rep.append(("R7", f"`{recv}[i]` -> `{recv}.{method}(i)` x{n_rw}"))
+            rep.append(("R7", f"`{recv}[i]` -> `{recv}.{method}(i)` x{n_rw}" + (f" (of which `&mut {recv}[i]` -> `{recv}.{method}_mut(i)` x{n_mut})" if n_mut else "")))
 
     # 3. explicit replaces
     for (scope, old, new, expect) in ex.replaces:
